@@ -43,6 +43,10 @@ type Connection struct {
 	// Mutex for protecting rooms
 	roomsMu sync.RWMutex
 
+	// roomsClosed is set (under roomsMu) when the hub unregisters the
+	// connection; no room can be joined afterwards
+	roomsClosed bool
+
 	// Path parameters extracted from the WebSocket route pattern (e.g., :room from /chat/:room)
 	PathParams map[string]string
 
@@ -345,30 +349,50 @@ func (c *Connection) GetData(key string) (interface{}, bool) {
 
 // JoinRoom adds this connection to a room
 func (c *Connection) JoinRoom(roomName string) {
+	// The connection's own view and the room's membership change together
+	// under roomsMu, so they cannot disagree, and never after the hub has
+	// unregistered the connection.
 	c.roomsMu.Lock()
-	c.rooms[roomName] = true
-	c.roomsMu.Unlock()
+	defer c.roomsMu.Unlock()
+
+	if c.roomsClosed {
+		log.Printf("[WS] Connection %s is closed, not joining room %s", c.ID, roomName)
+		return
+	}
 
 	// Add to room manager synchronously to ensure the room exists
 	// before any subsequent operations (like broadcast_to_room)
 	rm := c.hub.GetRoomManager()
 	if err := rm.AddConnectionToRoom(c, roomName); err != nil {
 		log.Printf("[WS] Failed to join room %s: %v", roomName, err)
-	} else {
-		log.Printf("[WS] Connection %s joined room %s", c.ID, roomName)
+		return
 	}
+	c.rooms[roomName] = true
+	log.Printf("[WS] Connection %s joined room %s", c.ID, roomName)
 }
 
 // LeaveRoom removes this connection from a room
 func (c *Connection) LeaveRoom(roomName string) {
 	c.roomsMu.Lock()
+	defer c.roomsMu.Unlock()
+
 	delete(c.rooms, roomName)
-	c.roomsMu.Unlock()
 
 	// Remove from room manager synchronously
 	rm := c.hub.GetRoomManager()
 	rm.RemoveConnectionFromRoom(c, roomName)
 	log.Printf("[WS] Connection %s left room %s", c.ID, roomName)
+}
+
+// leaveAllRooms is called by the hub when it unregisters the connection: the
+// connection leaves every room, in both views, and can join none afterwards.
+func (c *Connection) leaveAllRooms() {
+	c.roomsMu.Lock()
+	c.roomsClosed = true
+	c.rooms = make(map[string]bool)
+	c.roomsMu.Unlock()
+
+	c.hub.roomManager.RemoveConnectionFromAllRooms(c)
 }
 
 // GetRooms returns all rooms this connection has joined
